@@ -32,7 +32,7 @@ META = {
          "design_ref": "DESIGN.md 5/C09", "note": TB + " The queue is reached through the verif hook wrapper.", "technique": "exhaustive small-scope enumeration + rapid scenarios, reference-model and invariant oracles"},
  "C10": {"text": "Generated drop/dup/delay over handshake packets, stale packets of every type queued beforehand, all client N, drawn start offsets, retry loops on both sides; safety oracle (server n is a delivered SYN value != 255, paired ends agree) and bounded convergence oracle. " + VT,
          "design_ref": "DESIGN.md 5/C10", "note": TB, "technique": "property-based testing (rapid) in virtual time"},
- "C11": {"text": "Model-based generated histories (connect/transfer/close/relay failure/second client) over Server.Accept and Client.Dial on an in-memory relay; invariants after every step.",
+ "C11": {"text": "Model-based generated histories (connect/transfer/close/relay failure/second client) over Server.Accept and Client.Dial on an in-memory relay; invariants after every step; second unit: the handed-out connections used as plain net.Conns with partial reads across reconnects (prefix-of-this-connection oracle). Real time: a report counts only if the session shows it again when re-run alone (DESIGN 8.3).",
          "design_ref": "DESIGN.md 5/C11", "note": TB + " Relative to the in-memory relay model.", "technique": "stateful property-based testing (rapid action lists)"},
  "C12": {"text": "Generated close events (who/when/how often/transport condition) over running scenarios; oracles: bounded Close, blocked calls fail, peer told by FIN, and a goroutine-leak detector based on the synctest bubble. " + VT,
          "design_ref": "DESIGN.md 5/C12", "note": TB + " Timers without a goroutine are not observable.", "technique": "property-based testing (rapid) in virtual time with leak detection"},
@@ -42,11 +42,11 @@ META = {
          "design_ref": "DESIGN.md 5/C14", "note": TB, "technique": "exhaustive small-scope enumeration + rapid, list-equality oracle"},
  "C15": {"text": "Generated write-size and read-buffer-size sequences over NoiseGrpcConn, NoiseConn and the plain mailbox conn; oracle: n <= len(buf), no spurious error, concatenation equality, oversize writes rejected or chunked.",
          "design_ref": "DESIGN.md 5/C15", "note": TB, "technique": "property-based testing (rapid), stream-equality oracle"},
- "C16": {"text": "Differential: every clean handshake configuration over a message-preserving pipe vs a fragmenting reader; all 2-/3-way partitions of a record's wire bytes into partial writes for payloads 0..24, random finer ones.",
+ "C16": {"text": "Differential: every clean handshake configuration over a message-preserving pipe vs a fragmenting reader; all 2-/3-way partitions of a record's wire bytes into partial writes for payloads 0..24, random finer ones; NoiseConn.Write over a transport that times out, resumed as documented.",
          "design_ref": "DESIGN.md 5/C16", "note": TB, "technique": "differential testing + exhaustive partition enumeration"},
  "C17": {"text": "Generated entropies/phrases/keys; round-trip and equality oracles for the mnemonic codec and SID derivation, stream-direction agreement observed at the in-memory relay.",
          "design_ref": "DESIGN.md 5/C17", "note": TB, "technique": "property-based testing (rapid), round-trip and agreement oracles"},
- "C18": {"text": "Race-detector runs of generated scenarios whose timers and packet arrivals coincide in virtual time, with extra API goroutines, plus generated call-mix stress of the ticker and timeout manager; the weakest claim of the set: only interleavings that ran are checked.",
+ "C18": {"text": "Race-detector runs of generated scenarios whose timers and packet arrivals coincide in virtual time, with extra API goroutines, plus generated call-mix stress of the ticker and timeout manager and transport failures while start() launches the connection's goroutines; the weakest claim of the set: only interleavings that ran are checked.",
          "design_ref": "DESIGN.md 5/C18", "note": TB + " Trusts the Go race detector.", "technique": "property-based schedule generation under the Go race detector"},
  "C19": {"text": "Exhaustive enumeration of every one-byte field value of every GBN packet type and every byte string of length <= 3 through Deserialize, plus random/fuzzed longer inputs, against the round-trip oracle; complete for the enumerated sub-domain, sampled beyond it.",
          "design_ref": "DESIGN.md 5/C19", "note": "Trusts Go runtime and the harness's value comparison (nil payload == empty payload).",
